@@ -788,9 +788,14 @@ func c15Replay(c *lib.Ctx) {
 		if cs.Mode == "oracle" {
 			fmt.Printf("  expected (oracle): ok %q\n", cs.Expect)
 		}
-		fmt.Printf("  observed        : %s %s\n", impl, impl.Msg)
+		if cs.Mode != "seq" {
+			fmt.Printf("  observed        : %s %s\n", impl, impl.Msg)
+		}
 		for i, e := range impl.Extra {
 			name := fmt.Sprint("related ", i)
+			if cs.Mode == "seq" {
+				name = fmt.Sprintf("call %d observed", i+1)
+			}
 			if cs.Mode == "dest" && i < len(c15DestNames) {
 				name = c15DestNames[i]
 			}
